@@ -135,8 +135,8 @@ def feature_matrix(tier, seed):
     results = {}
     builds = _feat_builds(tier)
     nightly_ok = False
-    if tier == "thorough":
-        builds.append(("portable-simd", FEATS + ["portable-simd"]))
+    # the nightly-only `portable-simd` build is part of both tiers when a nightly toolchain is present (skipped otherwise)
+    builds.append(("portable-simd", FEATS + ["portable-simd"]))
     for name, feats in builds:
         tdir = os.path.join(ROOT, "target", "feat-" + name)
         cmd = ["cargo"] + (["+nightly"] if name == "portable-simd" else []) + ["build", "--release", "--offline", "--target-dir", tdir]
@@ -184,13 +184,13 @@ def feature_matrix(tier, seed):
 
 def setup_feature_builds():
     """cold builds of the quick-tier feature matrix (so that the first check run is not slowed down)"""
-    for name, feats in _feat_builds("quick"):
+    for name, feats in _feat_builds("quick") + [("portable-simd", FEATS + ["portable-simd"])]:
         tdir = os.path.join(ROOT, "target", "feat-" + name)
-        cmd = ["cargo", "build", "--release", "--offline", "--target-dir", tdir]
+        cmd = ["cargo"] + (["+nightly"] if name == "portable-simd" else []) + ["build", "--release", "--offline", "--target-dir", tdir]
         if feats:
             cmd += ["--features", ",".join(feats)]
         b = subprocess.run(cmd, cwd=os.path.join(ROOT, "harness-feat"), capture_output=True, text=True, env=ENV)
-        if b.returncode != 0:
+        if b.returncode != 0 and name != "portable-simd":
             print(b.stderr[-2000:])
             return 2
     return 0
